@@ -44,7 +44,7 @@ pub fn is_text_char(c: u8) -> bool {
 
 // ------------------------------------------------------------------------------------------------ string material
 const WORDS: &[&str] = &[
-    "INBOX", "inbox", "Sent", "Drafts", "Archive/2024", "NIL", "nil", "a", "x", "foo.bar", "user@example.org", "=?UTF-8?Q?x?=",
+    "INBOX", "inbox", "Inbox", "iNbOx", "inboX", "Sent", "Drafts", "Archive/2024", "NIL", "nil", "a", "x", "foo.bar", "user@example.org", "=?UTF-8?Q?x?=",
     "7BIT", "TEXT", "PLAIN", "UTF-8", "charset", "OK", "FETCH", "BODY", "UID", "1", "42", "{5}", "[x]", "+", "~", "STORAGE", "MESSAGE",
     "IMAP4rev1", "AUTH=PLAIN", "\\Seen", "\\*", "Foo Bar", "multi word name", "(paren)", "100%", "star*",
 ];
@@ -523,6 +523,13 @@ fn info_text(rng: &mut Rng) -> String {
             if is_text_char(c) {
                 s.push(c as char);
             }
+        }
+        // blanks at either end belong to the text: "[CODE]  two blanks" has the text " two blanks"
+        if rng.chance(1, 6) {
+            s.insert(0, ' ');
+        }
+        if rng.chance(1, 8) {
+            s.push(' ');
         }
         if !s.is_empty() && !s.starts_with('[') {
             return s;
